@@ -4,4 +4,4 @@ INVARIANT Emit
 CHECK_DEADLOCK FALSE
 CONSTANTS
   MaxLen = 6
-  Alphabet = {32, 10, 91, 93, 123, 125, 44, 58, 34, 92, 47, 42, 48, 49, 45, 43, 46, 101, 69, 117, 116, 114, 110, 108, 31, 195, 169}
+  Alphabet = {32, 13, 10, 91, 93, 123, 125, 44, 58, 34, 92, 47, 42, 48, 49, 45, 43, 46, 101, 69, 117, 116, 114, 110, 108, 31, 195, 169}
